@@ -73,7 +73,7 @@ def thorough_grid():
         for j, (n, m) in enumerate(_PAIRS):
             a = _ALLOCS[(i * 3 + j * 7 + 1) % len(_ALLOCS)]
             alloc = TA(fl, *a)
-            if (i + j) % 5 == 0 and fl != "MOT":   # MOT + std::allocator: see DESIGN.md (finding F-C17-1)
+            if (i + j) % 5 == 0:
                 alloc = STD(fl)
             key = (fl, n, m, alloc[1])
             if key in have:
